@@ -10,7 +10,8 @@
      * random.randint(lo, hi) is an explicit function argument [rint]; its contract
        (lo <= hi -> lo <= rint lo hi <= hi) is a hypothesis of the theorems, never built into the model. *)
 From Coq Require Import ZArith List Bool.
-Require Import Rig.Model.Base Rig.Generated.GenGeometryLinks Rig.Generated.GenGeometry.
+Require Import Rig.Model.Base Rig.Generated.GenGeometryLinks Rig.Generated.GenGeometry
+        Rig.Generated.GenGeometryShapes.
 Import ListNotations.
 Open Scope Z_scope.
 
@@ -65,7 +66,9 @@ Definition torus_delta (source destination : vec3) (w h : Z) : Z * Z :=
   let '(dx0, dy0, dz) := destination in
   ((dx0 - dz - sx) mod w, (dy0 - dz - sy) mod h).
 
-(* the `if abs(x) >= height: ... elif abs(y) >= width: ...` adjustment *)
+(* the `if abs(x) >= height: ... elif abs(y) >= width: ...` adjustment, restated readably; what the
+   model executes is the statement-by-statement translation [torus_spiral] of that part of the source
+   (Generated/GenGeometryShapes.v); Proofs/Geometry.v shows the two equal *)
 Definition max_spirals (c size : Z) : Z := (if c <? 0 then c + size - 1 else c) / size.
 
 Definition spiral (rint : Z -> Z -> Z) (v : vec3) (width height : Z) : vec3 :=
@@ -114,8 +117,8 @@ Definition torus_choice (k0 k1 k2 k3 : Z) (source destination : vec3) (w h : Z) 
 Definition shortest_torus_path (k0 k1 k2 k3 : Z) (rint : Z -> Z -> Z)
            (source destination : vec3) (width height : Z) : result vec3 :=
   if (width =? 0) || (height =? 0) then OtherError        (* ZeroDivisionError of `%` *)
-  else Ok (spiral rint (minimise_xyz (torus_choice k0 k1 k2 k3 source destination width height))
-                  width height).
+  else Ok (let '(x, y, z) := minimise_xyz (torus_choice k0 k1 k2 k3 source destination width height) in
+           torus_spiral rint x y z width height).
 
 Definition torus_path_request (k0 k1 k2 k3 : Z) (source destination : vec3) (width height : Z)
   : option (Z * Z) :=
@@ -130,8 +133,8 @@ Definition torus_choice_orig (k0 k1 k2 k3 : Z) (source destination : vec3) (w h 
 Definition shortest_torus_path_orig (k0 k1 k2 k3 : Z) (rint : Z -> Z -> Z)
            (source destination : vec3) (width height : Z) : result vec3 :=
   if (width =? 0) || (height =? 0) then OtherError
-  else Ok (spiral rint (minimise_xyz (torus_choice_orig k0 k1 k2 k3 source destination width height))
-                  width height).
+  else Ok (let '(x, y, z) := minimise_xyz (torus_choice_orig k0 k1 k2 k3 source destination width height) in
+           torus_spiral rint x y z width height).
 
 (* the length function with its error branch *)
 Definition torus_path_length_checked (source destination : vec3) (width height : Z) : result Z :=
